@@ -43,9 +43,13 @@ def tables():
     return {t: getattr(ec, t) for t in ("spc", "sbc", "ssc", "smc", "mmc")}
 
 
-def make_device(kind, devtype, qual):
+STD_LENS = [96, 36, 164, 260]  # bytes of standard INQUIRY data the device has (ADDITIONAL LENGTH 91, 31, 159, 255)
+
+
+def make_device(kind, devtype, qual, salt=0):
     """-> (device, target, seen) ; seen() lists the CDBs that reached this device's target."""
-    tgt = Target(512, 1 << 20, devtype=devtype, qualifier=qual)
+    tgt = Target(512, 1 << 20, devtype=devtype, qualifier=qual,
+                 identity={"std_len": STD_LENS[(devtype + qual + salt) % 4]})
     _N[0] += 1
     if kind == "plain":
         def responder(dev, cmd, rec):
@@ -148,7 +152,7 @@ def check_sequence(steps):
                 continue
             if step[0] == "attach":
                 _, devtype, qual, kind = step
-                dev, tgt = make_device(kind, devtype, qual)
+                dev, tgt = make_device(kind, devtype, qual, salt=len(history))
                 with lib("attach" if s is None else "re-attach"):
                     if s is None:
                         s = SCSI(dev, 512)
